@@ -478,7 +478,11 @@ func histInputs(r *hlib.Run, rng *hlib.Rand) []histInput {
 		p4 := append(repeated(rng, 3000, 4), someText(rng, 9000)...)
 		p4t := append(someText(rng, 6000), repeated(rng, 4000, 3)...)
 		p64 := append(repeated(rng, 60000, 2), someText(rng, 30000)...)
+		// incompressible first: LZMA2 starts with uncompressed chunks (output before the first
+		// "$short workbuf" can be asked for: KNOWN_FINDINGS split-dependent:lzma-bad-workbuf-length-on-suspension)
+		pSt := append(append(rng.Bytes(66000), someText(rng, 8000)...), repeated(rng, 3000, 3)...)
 		specs := []spec{
+			{"xz", "xz-lzma2-dict4k-stored-first", 4096, pSt, []string{"-c", "-T1", "--check=crc32", "--lzma2=dict=4KiB"}},
 			{"lzma", "xz-lzma1-dict4k", 4096, p4, []string{"-c", "-T1", "--format=lzma", "--lzma1=dict=4KiB"}},
 			{"xz", "xz-lzma2-dict4k", 4096, p4, []string{"-c", "-T1", "--check=crc32", "--lzma2=dict=4KiB"}},
 			{"xz", "xz-lzma2-dict4k-text-first", 4096, p4t, []string{"-c", "-T1", "--check=crc64", "--lzma2=dict=4KiB"}},
@@ -808,7 +812,7 @@ func histSweep(r *hlib.Run, ds map[cdrv.Flavour]*cdrv.Driver, fls []cdrv.Flavour
 		at := 0
 		for _, j := range jobs {
 			tokens := have[j.in.codec] == 'K'
-			failed := false
+			failed, failedAuto := false, false
 			for k := range j.cmds {
 				rr := res[at]
 				at++
@@ -824,8 +828,8 @@ func histSweep(r *hlib.Run, ds map[cdrv.Flavour]*cdrv.Driver, fls []cdrv.Flavour
 						r.Count("H:runs-with-3-or-more-calls")
 					}
 				}
-				if failed {
-					continue
+				if failed || (failedAuto && strings.HasPrefix(kind, "workbuf-auto:")) {
+					continue // one report per input (and one for its runs with a lazily sized work buffer)
 				}
 				if same, why := sameStd(j.ref, rr, tokens); !same {
 					key := "split-dependent:" + j.in.codec + ":valid"
@@ -837,7 +841,9 @@ func histSweep(r *hlib.Run, ds map[cdrv.Flavour]*cdrv.Driver, fls []cdrv.Flavour
 					r.Fail(key, fmt.Sprintf("std/%s (input %s, %d bytes, decoder's own history ring %d bytes): %s (%s plan `%s`, %s build)",
 						j.in.codec, j.in.name, len(j.in.data), j.in.window, why, kind, strings.TrimSpace(j.plans[k].opts), fl),
 						fmt.Sprintf("one call: %s\n  -> %s\n%s: %s\n  -> %s", j.refC, firstN(j.ref.raw, 600), kind, j.cmds[k], firstN(rr.raw, 600)))
-					if !strings.HasPrefix(kind, "workbuf-auto:") {
+					if strings.HasPrefix(kind, "workbuf-auto:") {
+						failedAuto = true
+					} else {
 						failed = true
 					}
 				}
